@@ -59,7 +59,7 @@ def run_core_property(ctx, module, kinds, oracles, quick, thorough, rule, extra_
         "steps_oracle_only": stats.get("oracle_only_steps", 0),
         "op_histogram": stats.get("op_hist", {}),
         "error_histogram": stats.get("err_hist", {}),
-        "modelled_ops": modelled + (["rm_rxns (one reaction of the model, orphans kept: Core.removeRxn)"] if "rm_rxns" in stats.get("op_hist", {}) else []),
+        "modelled_ops": modelled + (["rm_rxns (one reaction of the model, orphans kept: Core.removeRxn)"] if "rm_rxns" in stats.get("op_hist", {}) else []) + (["add_rxns (one new reaction, metabolites of the model, no rule: Core.addRxn)"] if "add_rxns" in stats.get("op_hist", {}) else []),
         "oracle_only_ops": sorted(k for k in stats.get("op_hist", {}) if k not in coreops.MODELLED),
     })
     ctx.assumptions += [
